@@ -30,6 +30,12 @@ ReplaceLast(s, x) == [s EXCEPT ![Len(s)] = x]
 (***************************************************************************)
 (* collapse_candles: result is [ok, cs]; ok = FALSE is InvalidCandleOrder  *)
 (***************************************************************************)
+\* merge as the walk performs it; the deviation keeps the bucket's readings (a stale reading
+\* would then never be recomputed): switched on only to show that C01 can fail
+MergeW(p, c) ==
+  IF "merge_keeps_readings" \in Dev THEN [Merge(p, c) EXCEPT !.ind = p.ind, !.sub = p.sub]
+  ELSE Merge(p, c)
+
 RECURSIVE Walk(_, _, _, _, _)
 Walk(out, rest, s, e, tf) ==
   IF rest = <<>> THEN [ok |-> TRUE, cs |-> out]
@@ -40,11 +46,11 @@ Walk(out, rest, s, e, tf) ==
         nx == e + tf
     IN IF c.ts = NoTs \/ p.ts = NoTs THEN Walk(out, r, s, e, tf)   \* candle silently dropped
        ELSE IF s < c.ts /\ c.ts <= e /\ p.ts = e
-         THEN Walk(ReplaceLast(out, Merge(p, c)), r, s, e, tf)                      \* B1
+         THEN Walk(ReplaceLast(out, MergeW(p, c)), r, s, e, tf)                     \* B1
        ELSE IF s < c.ts /\ c.ts <= e
          THEN Walk(Append(out, [c EXCEPT !.ts = e]), r, s, e, tf)                   \* B2
        ELSE IF s - tf < c.ts /\ c.ts <= s /\ p.ts = s
-         THEN Walk(ReplaceLast(out, Merge(p, c)), r, s, e, tf)                      \* B3
+         THEN Walk(ReplaceLast(out, MergeW(p, c)), r, s, e, tf)                     \* B3
        ELSE IF e < c.ts /\ c.ts <= nx
          THEN Walk(Append(out, [c EXCEPT !.ts = nx]), r, s + tf, e + tf, tf)        \* B4
        ELSE IF s < c.ts /\ OnTf(c.ts, tf)
